@@ -3,11 +3,13 @@
 import json, subprocess, sys
 ours = json.loads(subprocess.check_output(["git", "show", "HEAD:known_findings.json"]))
 theirs = json.loads(subprocess.check_output(["git", "show", sys.argv[1] + ":known_findings.json"]))
-seen, out = set(), []
+seen, out = {}, []
 for f in ours.get("findings", []) + theirs.get("findings", []):
     k = (f["property"], f["key"])
-    if k not in seen:
-        seen.add(k); out.append(f)
+    if k in seen:
+        out[seen[k]] = f  # theirs (later) wins: status updates travel with the unit branch
+    else:
+        seen[k] = len(out); out.append(f)
 ours["findings"] = out
 json.dump(ours, open("known_findings.json", "w"), indent=1)
 print(len(out), "findings")
